@@ -407,7 +407,10 @@ impl<'a> Oracle<'a> {
     fn diff(&self, exp: &SQ, act: &SQ, keys_prop: &'static str, queue_prop: &'static str) -> Chk {
         let (ek, ak) = (keyset(exp), keyset(act));
         if ek != ak {
-            return fail(keys_prop, format!("store keys are {ak:?}, expected {ek:?}"));
+            // an entry that should be resident is missing: besides the capacity / memory rule it was lost under, this breaks
+            // every "stored and then served" property (C01 C03 C09 C10 C11) -- marked for the --prop filter
+            let lost = if ek.iter().any(|k| !ak.contains(k)) { " [lost entry]" } else { "" };
+            return fail(keys_prop, format!("store keys are {ak:?}, expected {ek:?}{lost}"));
         }
         for (k, e) in &exp.store {
             let a = &act.store[k];
@@ -1160,7 +1163,11 @@ fn run_config(eng: &dyn Engine, cfg: &Config, seed: u64, iters: usize, max_ops: 
                 res.ops += ops.len() as u64;
                 N_OPS.fetch_add(ops.len() as u64, Ordering::Relaxed);
             }
-            Some(v) if PROP_FILTER.get().map_or(false, |p| p != v.prop) => {
+            Some(v)
+                if PROP_FILTER.get().map_or(false, |p| {
+                    p != v.prop && !(v.what.contains("[lost entry]") && ["C01", "C03", "C09", "C10", "C11"].contains(&p.as_str()))
+                }) =>
+            {
                 res.ops += v.step as u64;
                 N_OPS.fetch_add(v.step as u64, Ordering::Relaxed);
             }
